@@ -1,6 +1,7 @@
 package types
 
 import (
+	"math"
 	"strings"
 	"time"
 
@@ -94,6 +95,13 @@ func (cs ClientState) Validate() error {
 	}
 	if err := light.ValidateTrustLevel(cs.TrustLevel.ToTendermint()); err != nil {
 		return err
+	}
+	// the light client library converts numerator and denominator to int64 when it computes the voting power needed
+	if cs.TrustLevel.Numerator > math.MaxInt64 || cs.TrustLevel.Denominator > math.MaxInt64 {
+		return sdkerrors.Wrapf(
+			sdkerrors.ErrInvalidRequest, "trust level %d/%d does not fit int64",
+			cs.TrustLevel.Numerator, cs.TrustLevel.Denominator,
+		)
 	}
 	if cs.TrustingPeriod == 0 {
 		return sdkerrors.Wrap(ErrInvalidTrustingPeriod, "trusting period cannot be zero")
@@ -246,6 +254,10 @@ func verifyDelayPeriodPassed(ctx sdk.Context, store sdk.KVStore, proofHeight exp
 	}
 	currentTimestamp := uint64(ctx.BlockTime().UnixNano())
 	validTime := processedTime + delayPeriod
+	if validTime < processedTime {
+		// uint64 overflow: a delay that long can not have passed
+		return sdkerrors.Wrapf(ErrDelayPeriodNotPassed, "delay period %d overflows the time stamp range", delayPeriod)
+	}
 	// NOTE: delay period is inclusive, so if currentTimestamp is validTime, then we return no error
 	if validTime > currentTimestamp {
 		return sdkerrors.Wrapf(
